@@ -218,9 +218,22 @@ def worker_main(argv):
 # ------------------------------------------------------------------------------------------------
 # Parent side
 # ------------------------------------------------------------------------------------------------
+_WORKER_SCRATCH = [None]
+
+
+def scratch_base():
+    """Private scratch directory of this worker process, below the run's scratch dir (removed by the parent)."""
+    if _WORKER_SCRATCH[0] is None or not os.path.isdir(_WORKER_SCRATCH[0]):
+        parent = os.environ.get("VERIF_SCRATCH_DIR")
+        if not parent or not os.path.isdir(parent):
+            parent = "/dev/shm" if os.access("/dev/shm", os.W_OK) else "/var/tmp"
+        _WORKER_SCRATCH[0] = tempfile.mkdtemp(prefix="w%d-" % os.getpid(), dir=parent)
+    return _WORKER_SCRATCH[0]
+
+
 class Scratch(object):
     def __init__(self):
-        base = os.environ.get("VERIF_SCRATCH") or "/var/tmp"
+        base = os.environ.get("VERIF_SCRATCH") or ("/dev/shm" if os.access("/dev/shm", os.W_OK) else "/var/tmp")
         os.makedirs(base, exist_ok=True)
         self.dir = tempfile.mkdtemp(prefix="verif-run-", dir=base)
         self.n = 0
@@ -346,7 +359,7 @@ def explore(check, tier, seed, scratch, runs=None, wall=None, procs=None):
             extra = parts[(w + 1) % procs] if procs > 1 else []
         else:
             extra = [i for i in parts[(w + 1) % procs] if i in rep] if procs > 1 else []
-        spec = {"mode": "explore", "prop": check.prop, "tier": tier, "seed": seed, "indices": mine + extra,
+        spec = {"mode": "explore", "prop": check.prop, "tier": tier, "seed": seed, "indices": extra + mine,
                 "wall": cfg["wall"], "keep_all_sigs": rep_all, "keep_sig": sorted(rep)}
         procs_l.append((w, len(mine), _spawn(spec, scratch, hashseed_for(seed, w))))
     outs = []
